@@ -47,6 +47,7 @@ func divGuarded(p, d uint64) (q, r uint64, timedOut bool) {
 
 func runC08(args []string) error {
 	c := newCommon("c08")
+	mode := c.fs.String("mode", "full", "full | procs (reduced list, run under several GOMAXPROCS values: the tables built at package initialisation must not depend on it)")
 	c.fs.Parse(args)
 	lg, err := tracelog.Create(c.out)
 	if err != nil {
@@ -69,7 +70,23 @@ func runC08(args []string) error {
 		bs = append(bs, rng.Intn(65536))
 	}
 	logT, expT := gf2p16.VerifTables()
+	procsMode := *mode == "procs"
+	nprocs := runtime.GOMAXPROCS(0)
 	for a := 0; a < 65536; a++ {
+		if procsMode {
+			// elements a chunked / parallel table initialisation would get wrong: chunk boundaries, the remainder at the top
+			keep := a < 64 || a >= 65536-64 || a%61 == 0
+			for w := 1; w < nprocs && !keep; w++ {
+				for _, per := range []int{65536 / nprocs, 65535 / nprocs} {
+					if d := a - w*per; d >= -2 && d <= 2 {
+						keep = true
+					}
+				}
+			}
+			if !keep {
+				continue
+			}
+		}
 		b := append([]int{}, bs...)
 		if a != 0 {
 			// structured partners: log sums that land exactly on 65534, 65535, 65536
@@ -94,6 +111,17 @@ func runC08(args []string) error {
 			dr = append(dr, int(gf2p16.T(a).Div(gf2p16.T(bb))))
 		}
 		lg.Emit(tracelog.M{"ev": "div", "a": a, "b": db, "r": dr})
+	}
+	if procsMode {
+		for base := 1; base < 65536; base += 1024 {
+			var as, rs []int
+			for a := base; a < base+1024 && a < 65536; a++ {
+				as = append(as, a)
+				rs = append(rs, int(gf2p16.T(a).Inverse()))
+			}
+			lg.Emit(tracelog.M{"ev": "inv", "a": as, "r": rs})
+		}
+		return nil
 	}
 	// definitional sample (judged with the shift-xor product itself, not the tables)
 	for i := 0; i < 200; i++ {
